@@ -60,6 +60,16 @@ func filterDependencies(n *component_definition.Property, metas []*component_def
 	if len(result) == 0 {
 		return nil, errors.Errorf("inject '%s' not found available components", n)
 	}
+	//exclude the holder itself before ranking the candidates: otherwise it can be chosen among
+	//several candidates and is rejected afterwards as a self-inject, depending on candidate order
+	if len(result) > 1 {
+		others := fas.Filter(result, func(m *component_definition.Meta) bool {
+			return !n.Holder.Meta.IsSelf(m)
+		})
+		if len(others) != 0 {
+			result = others
+		}
+	}
 	//filter qualifier
 	if qualifierName, isQualifier := n.Args().Find(component_definition.ArgQualifier); isQualifier {
 		result = fas.Filter(result, func(m *component_definition.Meta) bool {
